@@ -56,7 +56,12 @@ fn check(prop: &'static str, tier: &str, runs_override: Option<u64>) -> i32 {
     let n = |p: Plan| runs_override.unwrap_or(if thorough { p.thorough } else { p.quick });
     let rule: &str;
     match prop {
-        "C01" | "C02" | "C03" | "C08" | "C09" | "C13" | "C16" => {
+        "C13" => {
+            run::<worlds::g::WorldG>(&mut agg, prop, n(Plan { quick: 2500, thorough: 150_000 }), thorough, &known, cap / 2);
+            run::<worlds::i::WorldI>(&mut agg, prop, runs_override.unwrap_or(if thorough { 40_000 } else { 500 }), thorough, &known, cap / 2);
+            rule = RULE;
+        }
+        "C01" | "C02" | "C03" | "C08" | "C09" | "C16" => {
             run::<worlds::g::WorldG>(&mut agg, prop, n(Plan { quick: 3000, thorough: 200_000 }), thorough, &known, cap);
             rule = RULE;
         }
